@@ -204,6 +204,7 @@ func (g *gen) cbScript(n int64, mode int) []CbStep {
 		if r.Intn(3) == 0 {
 			mutate(r.Intn(k))
 		}
+	case mode == 4:
 	case k > 0 && r.Intn(5) == 0:
 		mutate(r.Intn(k))
 	}
@@ -525,8 +526,8 @@ func (g *gen) sortCase() {
 	a := make([]*V, n)
 	for i := range a {
 		switch {
-		case r.Intn(8) == 0:
-		case r.Intn(8) == 0:
+		case r.Intn(6) == 0:
+		case r.Intn(6) == 0:
 			a[i] = vp(vUndef)
 		case cmp > 0:
 			a[i] = vp(vNum(float64(r.Intn(15) - 5)))
@@ -588,14 +589,25 @@ func (g *gen) strCase() {
 	g.runStr(r.Intn(3), s, args, "string-range")
 }
 
-func (g *gen) runCtor(args []V, withNew bool, bucket string) {
+func (g *gen) runCtor(args []V, withNew bool, bucket string) { g.runCtorP(args, withNew, 0, "", bucket) }
+
+// form 0 Array(..) / new Array(..), 1 array literal, 2 Array.apply(null, [..]); protoJS installs index
+// properties on the prototypes first (they must not influence how the result is built)
+func (g *gen) runCtorP(args []V, withNew bool, form int, protoJS string, bucket string) {
 	call := "Array"
 	if withNew {
 		call = "new Array"
 	}
-	src := prelude + fmt.Sprintf("var R=null, r=null, out; try{ r=%s(%s); out=\"ok \"+(Array.isArray(r)&&Object.getPrototypeOf(r)===AP ? (r.length<=64?encarr(r):enc(r.length)) : \"o\") }catch(e){ out=\"ex \"+(e instanceof RangeError?3:e instanceof TypeError?6:8) } out", call, valsJS(args))
+	expr := fmt.Sprintf("%s(%s)", call, valsJS(args))
+	switch form {
+	case 1:
+		expr = "[" + valsJS(args) + "]"
+	case 2:
+		expr = "Array.apply(null,[" + valsJS(args) + "])"
+	}
+	src := prelude + protoJS + fmt.Sprintf("var R=null, r=null, out; LOG=\"\"; try{ r=%s; out=\"ok \"+(Array.isArray(r)&&Object.getPrototypeOf(r)===AP ? (r.length<=64?encarr(r):enc(r.length)) : \"o\") }catch(e){ out=\"ex \"+(e instanceof RangeError?3:e instanceof TypeError?6:8) } out+(LOG===\"\"?\"\":\" SETTER-OR-GETTER-CALLED \"+LOG)", expr)
 	o := runScript(src)
-	text := fmt.Sprintf("ctor %s(%s) -> ", call, valsJS(args))
+	text := fmt.Sprintf("ctor %s%s -> ", protoJS, expr)
 	obs := "(Thrown 9)"
 	if o.Panic != nil {
 		text += fmt.Sprintf("GO PANIC %v", o.Panic)
@@ -677,7 +689,13 @@ func (g *gen) pinned() {
 	g.runStr(2, "abc", []V{vNum(1), vNum(math.Inf(1))}, "pinned")
 	// 11 (fixed 4b9c107) toString calls join without arguments
 	g.runHist(arr(nums(1, 2)), []Op{{kind: 'c', m: 18, args: []Arg{av(vStr("-"))}}}, "pinned")
-	// 12 (fixed fcc8076) the callback methods read length before the IsCallable test
+	// 13 (open) reverse tests HasProperty before it Gets: a getter that truncates the receiver
+	g.runHist(Recv{arr: true, elems: []*V{vp(vNum(3)), vp(vStr("x"))}, getters: map[int]Getter{1: {id: 32, p: 8, fx: 4}}}, []Op{{kind: 'c', m: 3}}, "pinned")
+	// 12 (fixed fcc8076) the callback methods read length before the IsCallable test: all seven, every run
+	for m := 10; m <= 16; m++ {
+		g.runHist(Recv{elems: []*V{vp(vStr("a")), nil, vp(vStr("b"))}, length: vp(vNum(3)), lenGet: true},
+			[]Op{{kind: 'c', m: m, args: []Arg{av(Pick(g.r, []V{vNum(1), vUndef, vNull, vStr("f")}))}}, {kind: 'c', m: m}, {kind: 'c', m: m, args: []Arg{{kind: 'c'}}}}, "pinned")
+	}
 	g.runHist(Recv{elems: []*V{vp(vStr("a")), vp(vStr("b"))}, length: vp(vNum(2)), lenGet: true},
 		[]Op{{kind: 'c', m: 12, args: []Arg{av(vNum(1))}}}, "pinned")
 }
@@ -687,14 +705,142 @@ func (g *gen) pinned() {
 func runC08(env *Env) {
 	env.Import = "Otto.C08.Corr"
 	env.Rule = "receivers: arrays and array-likes of 0-8 slots (values, holes, all-holes), odd lengths for array-likes, inherited index properties on Object/Array.prototype; " +
-		"histories of 1-6 steps over assignments, deletes, defineProperty (elements and length), freeze/seal/preventExtensions and the 20 Array.prototype methods of the table (toString/toLocaleString included, with 0-2 superfluous arguments on every method) + sort; callbacks that append/grow/shrink/edit the receiver during the walk; mutators on sealed/frozen/non-extensible/non-writable/non-configurable receivers; array-likes whose length getter counts its reads; callbacks that overwrite/delete/redefine-as-getter the element being visited; receivers whose elements are counting getters (which value is used and how often each getter runs); explicit undefined / null / omission for every optional argument; " +
+		"histories of 1-6 steps over assignments, deletes, defineProperty (elements and length), freeze/seal/preventExtensions and the 20 Array.prototype methods of the table (toString/toLocaleString included, with 0-2 superfluous arguments on every method) + sort; callbacks that append/grow/shrink/edit the receiver during the walk; mutators on sealed/frozen/non-extensible/non-writable/non-configurable receivers; array-likes whose length getter counts its reads; callbacks that overwrite/delete/redefine-as-getter the element being visited; receivers whose elements are counting getters (which value is used and how often each getter runs); explicit undefined / null / omission for every optional argument; getters that grow/shrink a later concat argument or the receiver during the call; read-only and accessor (logging setter) index properties on Array.prototype/Object.prototype while map/filter/slice/splice/concat/Array()/literals/apply build their result; " +
 		"numeric arguments drawn around 0, +-length, +-1/2, NaN, +-Infinity, +-2^31..2^64, undefined/null/booleans/digit strings; callbacks scripted (return value, mutation of the receiver, throw); " +
 		"every generated case counts as non-trivial when its text is distinct (the generator has no filler cases)"
 	g := &gen{env: env, r: env.Rng}
 	r := g.r
 	g.pinned()
 	for env.Count() < env.N {
-		switch k := r.Intn(39); {
+		switch k := r.Intn(48); {
+		case k >= 46:
+			g.sortCase()
+		case k >= 39 && k < 42: // getters that change ANOTHER object taking part in the same call
+			n := 1 + r.Intn(4)
+			rc := Recv{arr: true, elems: g.slots(n, Pick(r, []int{0, 0, 1}))}
+			var ops []Op
+			if r.Intn(3) > 0 { // concat: a getter in an earlier item grows / shrinks a later item (or the receiver passed again)
+				na := 1 + r.Intn(3)
+				op := Op{kind: 'c', m: 17}
+				narr := 0
+				for i := 0; i < na; i++ {
+					switch r.Intn(6) {
+					case 0:
+						op.args = append(op.args, av(g.val()))
+					case 1:
+						op.args = append(op.args, Arg{kind: 'r'})
+					default:
+						op.args = append(op.args, Arg{kind: 'a', a: g.slots(r.Intn(4), Pick(r, []int{0, 0, 1})), g: map[int]Getter{}})
+						narr++
+					}
+				}
+				fx := func(from int) Getter { // from: -1 receiver, j = j-th array argument; the target is a LATER item
+					gt := Getter{id: 10 + r.Intn(80), p: r.Intn(9)}
+					later := narr - 1 - from
+					switch {
+					case later > 0 && r.Intn(4) > 0:
+						gt.j = from + 1 + r.Intn(later)
+						gt.fx, gt.n = 1+r.Intn(2), r.Intn(5)
+					case r.Intn(2) == 0:
+						gt.fx, gt.n = 3+r.Intn(2), r.Intn(5)
+					}
+					return gt
+				}
+				rc.getters = map[int]Getter{r.Intn(n): fx(-1)}
+				j := 0
+				for i := range op.args {
+					if op.args[i].kind == 'a' {
+						if len(op.args[i].a) > 0 && r.Intn(2) == 0 {
+							op.args[i].g[r.Intn(len(op.args[i].a))] = fx(j)
+						}
+						j++
+					}
+				}
+				ops = append(ops, op)
+			} else { // any reading method: a getter of the receiver grows / shrinks the receiver while it is walked
+				rc.getters = map[int]Getter{}
+				for i := 1 + r.Intn(2); i > 0; i-- {
+					rc.getters[r.Intn(n)] = Getter{id: 10 + r.Intn(80), p: r.Intn(9), fx: 3 + r.Intn(2), n: r.Intn(n + 2)}
+				}
+				for i := 1 + r.Intn(2); i > 0; i-- {
+					ops = append(ops, g.call(rc, Pick(r, []int{0, 5, 8, 9, 10, 11, 12, 13, 14, 15, 16, 17, 19, 3, 4})))
+				}
+			}
+			g.runHist(rc, ops, "getter-effects")
+		case k >= 42 && k < 45: // read-only / accessor INDEX properties on the prototypes while a method builds its result array
+			n := 1 + r.Intn(5)
+			rc := Recv{arr: r.Intn(4) > 0, elems: g.slots(n, Pick(r, []int{0, 0, 1, 2}))}
+			if !rc.arr {
+				rc.length = vp(vNum(float64(n)))
+			}
+			rc.proto = map[int64]Prop{}
+			rc.onAP = rc.arr && r.Intn(2) == 0
+			allData := true
+			for i := 1 + r.Intn(2); i > 0; i-- {
+				k := int64(r.Intn(n + 1))
+				if r.Intn(2) == 0 {
+					rc.proto[k] = Prop{v: vStr("P"), w: false, e: true, c: true}
+				} else {
+					rc.proto[k] = Prop{acc: &Getter{id: 90 + int(k), p: r.Intn(9)}}
+					allData = false
+				}
+			}
+			if r.Intn(3) == 0 { // constructor / literal / apply under the same prototypes
+				var args []V
+				for i := r.Intn(n + 2); i > 0; i-- {
+					args = append(args, g.val())
+				}
+				form := r.Intn(3)
+				if form == 1 && len(args) == 1 {
+					form = 2
+				}
+				if len(args) == 1 && args[0].k == 'd' {
+					args[0] = vStr("x")
+				}
+				g.runCtorP(args, r.Intn(2) == 0, form, rc.JS()[:strings.Index(rc.JS(), "var ISARR")], "proto-result")
+				continue
+			}
+			var ops []Op
+			for i := 1 + r.Intn(2); i > 0; i-- {
+				ms := []int{13, 13, 14, 14, 5, 5}
+				if rc.arr && !rc.onAP || rc.arr {
+					ms = append(ms, 17)
+				}
+				if allData {
+					ms = append(ms, 6)
+				}
+				m := Pick(r, ms)
+				op := g.call(rc, m)
+				if m == 13 || m == 14 {
+					op.args = []Arg{{kind: 'c'}}
+					op.cbs = g.cbScript(int64(n), 4)
+					for i := range op.cbs {
+						op.cbs[i].ret = Pick(r, []V{vBool(true), vNum(1), vStr("x"), vNum(float64(r.Intn(9))), vBool(false)})
+					}
+				}
+				ops = append(ops, op)
+			}
+			g.runHist(rc, ops, "proto-result")
+		case k == 45: // step order of the seven callback methods: counted length getter, non-callable / missing / callable callback
+			n := r.Intn(4)
+			rc := Recv{elems: g.slots(n, Pick(r, []int{0, 1})), lenGet: true}
+			rc.length = vp(Pick(r, []V{vNum(float64(n)), vNum(float64(n)), vNum(0), vNum(float64(n) + 1), vStr("1"), vUndef}))
+			var ops []Op
+			for i := 1 + r.Intn(3); i > 0; i-- {
+				op := Op{kind: 'c', m: 10 + r.Intn(7)}
+				switch r.Intn(4) {
+				case 0:
+				case 1:
+					op.args = []Arg{{kind: 'c'}}
+				default:
+					op.args = []Arg{av(g.val())}
+					if r.Intn(2) == 0 {
+						op.args = append(op.args, av(g.val()))
+					}
+				}
+				ops = append(ops, op)
+			}
+			g.runHist(rc, ops, "length-getter")
 		case k == 38: // receivers whose length converts to 0: the methods still write length (15.4.4.6/9 step 4.a ...)
 			var rc Recv
 			var ops []Op
@@ -720,7 +866,7 @@ func runC08(env *Env) {
 				rc = g.recv(false)
 			}
 			if r.Intn(4) == 0 {
-				rc.getters = map[int][2]int{r.Intn(len(rc.elems)): {1, r.Intn(9)}}
+				rc.getters = map[int]Getter{r.Intn(len(rc.elems)): {id: 1, p: r.Intn(9)}}
 			}
 			var ops []Op
 			for i := 1 + r.Intn(2); i > 0; i-- {
@@ -738,10 +884,10 @@ func runC08(env *Env) {
 			if !rc.arr {
 				rc.length = vp(vNum(float64(n)))
 			}
-			rc.getters = map[int][2]int{}
+			rc.getters = map[int]Getter{}
 			for i := 1 + r.Intn(3); i > 0; i-- {
 				j := r.Intn(n)
-				rc.getters[j] = [2]int{j + 1, r.Intn(9)}
+				rc.getters[j] = Getter{id: j + 1, p: r.Intn(9)}
 			}
 			if r.Intn(5) == 0 {
 				rc.proto = map[int64]Prop{int64(r.Intn(n + 1)): {v: vStr("P"), w: true, e: true, c: true}}
@@ -752,7 +898,7 @@ func runC08(env *Env) {
 				op := g.call(rc, m)
 				if (m == 8 || m == 9) && len(op.args) > 0 && r.Intn(2) == 0 { // search for what a getter returns
 					for _, gp := range rc.getters {
-						op.args[0] = av(vNum(float64(gp[1])))
+						op.args[0] = av(vNum(float64(gp.p)))
 					}
 				}
 				ops = append(ops, op)
